@@ -1,7 +1,7 @@
 #!/bin/bash
 # usage: harness/runall.sh [quick|thorough]   — runs every registered check on the current /repo, one line each
 tier=${1:-quick}
-cd /verif
+cd "$(dirname "$0")/.."
 for c in $(python3 -c "import json; print(' '.join(x['property_id'] for x in json.load(open('MANIFEST.json'))['checks']))"); do
   s=$(date +%s)
   out=$(timeout 3600 ./check $c $tier 2>&1); rc=$?
